@@ -33,6 +33,14 @@ def main(argv):
     framework.install_watchdog(float(os.environ.get('VERIF_CALL_LIMIT_S', '20' if tier == 'quick' else '180')))
     try:
         if replay:
+            import json
+            data = json.load(open(replay))
+            if 'library_call' in data:          # a call that did not return: re-run it under the watchdog
+                ok = framework.replay_call(data['library_call'])
+                print(json.dumps({'returned_within_limit': ok}))
+                if not ok:
+                    print(f'VIOLATION property={pid} replay={replay}')
+                return 0 if ok else 1
             return mod.replay(Check(pid, tier, seed, keep_replays=True), replay)
         # Change-directed search: when the library source differs from the tree these checks were last validated on
         # (gen/blessed_source.json), the quick tier does not stop at one seed — it repeats the whole check with further
@@ -43,14 +51,22 @@ def main(argv):
         seeds = [seed]
         if changed:
             framework.ESCALATION = {'changed_files': changed, 'seeds_run': seeds, 'budget_s': budget}
-        rc = mod.run(Check(pid, tier, seed))
+        def run_one(chk):
+            try:
+                return mod.run(chk)
+            except framework.LibraryDidNotTerminate as e:
+                # the sweep was inside a call into the library that never returned: that call is the failing input
+                chk.violation('hang0', {'what': 'a call into the library did not return: ' + str(e),
+                                        'library_call': getattr(e, 'call', None)}, concrete=True)
+                return chk.finish(rule='(sweep aborted: a call into the library did not return)', evaluations=1, distinct=1)
+        rc = run_one(Check(pid, tier, seed))
         first = time.time() - t0
         k = 0
         while changed and rc == 0 and k < 8 and (time.time() - t0) + first * 1.1 < budget:
             k += 1
             s2 = (seed * 1000003 + k * 7919) % (2 ** 31)
             seeds.append(s2)
-            rc = mod.run(Check(pid, tier, s2, keep_replays=True))
+            rc = run_one(Check(pid, tier, s2, keep_replays=True))
         return rc
     except Exception:
         traceback.print_exc()
